@@ -23,8 +23,9 @@ func checkC12(p *Prog, r *Report) {
 	c12Century(p, r)
 	c12Closures(p, r)
 	c12InverseShape(p, r)
-	c12ForwardArms(p, r)
+	c12ForwardArms(p, r, "C12.R6")
 	c12Extract(p, r)
+	c12Wiring(p, r)
 }
 
 func intArrayLit(info *types.Info, body ast.Node, name string) ([]int64, token.Pos) {
